@@ -20,7 +20,7 @@ W == MkWorld(Case.world)
 
 RECURSIVE DocKnown(_)
 DocKnown(t) ==
-  CASE t.k \in {"cls", "lit", "startswith", "endswith", "haskey", "exactly"} -> TRUE
+  CASE t.k \in {"cls", "lit", "startswith", "endswith", "haskey", "exactly", "callable"} -> TRUE
     [] t.k \in {"union", "inter", "prod"} -> \A j \in DOMAIN t.args : DocKnown(t.args[j])
     [] t.k \in {"seqof", "collof"} -> DocKnown(t.arg)
     [] t.k = "mapof" -> DocKnown(t.kt) /\ DocKnown(t.vt)
@@ -41,7 +41,8 @@ Init == i \in 1..Len(Cases) /\ l = 1 /\ bad = "" /\ fin = FALSE
 Consume ==
   /\ ~fin /\ l <= Len(Case.steps)
   /\ LET c == StepClause(Case.steps[l]) IN
-       bad' = IF c # "" THEN bad \o (IF bad = "" THEN "" ELSE ",") \o "C11:" \o c \o "@" \o ToString(l) \o "#0" ELSE bad
+       \* (Callable[...] is not among the types C11 lists: its clauses are reported beyond the listed properties, X4)
+       bad' = IF c # "" THEN bad \o (IF bad = "" THEN "" ELSE ",") \o (IF Case.t.k = "callable" THEN "X4:" ELSE "C11:") \o c \o "@" \o ToString(l) \o "#0" ELSE bad
   /\ l' = l + 1 /\ UNCHANGED <<i, fin>>
 Finish ==
   /\ ~fin /\ l > Len(Case.steps)
